@@ -13,8 +13,17 @@ var urlRE = regexp.MustCompile("(?i)\\b((?:[a-z][\\w-]+:(?:/{1,3}|[a-z0-9%])|www
 // TextToHTML takes plain text, escapes it and tries to pretty it up for
 // HTML display
 func TextToHTML(text string) string {
-	text = html.EscapeString(text)
-	text = urlRE.ReplaceAllStringFunc(text, WrapURL)
+	// Find URLs in the original text and escape the pieces separately; matching in already
+	// escaped text lets a URL end inside a character reference such as "&gt;".
+	var sb strings.Builder
+	last := 0
+	for _, m := range urlRE.FindAllStringIndex(text, -1) {
+		sb.WriteString(html.EscapeString(text[last:m[0]]))
+		sb.WriteString(WrapURL(html.EscapeString(text[m[0]:m[1]])))
+		last = m[1]
+	}
+	sb.WriteString(html.EscapeString(text[last:]))
+	text = sb.String()
 	replacer := strings.NewReplacer("\r\n", "<br/>\n", "\r", "<br/>\n", "\n", "<br/>\n")
 	return replacer.Replace(text)
 }
